@@ -7,6 +7,7 @@ import (
 	"time"
 
 	"github.com/influxdata/influxdb/models"
+	"github.com/influxdata/influxdb/tsdb"
 )
 
 const vOpTimeout = 60 * time.Second
@@ -36,4 +37,17 @@ func vSortKeys(k []vKey) {
 		}
 		return a.TS < b.TS
 	})
+}
+
+func tsdbIndexSet(ix tsdb.Index, sf *tsdb.SeriesFile) tsdb.IndexSet {
+	return tsdb.IndexSet{Indexes: []tsdb.Index{ix}, SeriesFile: sf}
+}
+
+func vKeys(m map[string]bool) []string {
+	var out []string
+	for k := range m {
+		out = append(out, k)
+	}
+	sort.Strings(out)
+	return out
 }
